@@ -51,7 +51,14 @@ class TimeoutFamily:
         times = sorted(t for t in times if t > 0 and all(abs(t - L) >= 500 or t == L for L in limits))
         answer_at = rng.choice([None, None] + list(range(len(times) + 1)))
         ops = [{'op': 'start', 'mid': 'm1', 'vars': {'pid': 'p1'}}, {'op': 'quiesce'}, {'op': 'snapshot', 'level': 'live'}]
+        raced_at = answer_at if (answer_at is not None and answer_at < len(times) and rng.random() < opts.get('race', 0.3)) else None
         for i, t in enumerate(times):
+            if raced_at == i:
+                # the answer and the tick are released together from two threads
+                ops += [{'op': 'advance_to', 'target': target, 'ms': t},
+                        {'op': 'tick_race', 'spin_us': 0, 'calls': [{'target': {'pid': 'p1', 'key': 'k1', 'state': 'interrupted'}, 'action': rng.choice(['next', 'next', 'skip', 'error', 'submit', 'remove', 'abort']), 'options': {'ecode': 'e1'}}]},
+                        {'op': 'snapshot', 'level': 'live'}]
+                continue
             if answer_at == i:
                 ops += [{'op': 'act', 'target': {'pid': 'p1', 'key': 'k1', 'state': 'interrupted'}, 'action': rng.choice(['next', 'next', 'skip', 'error', 'submit', 'remove']), 'options': {'ecode': 'e1'}}, {'op': 'quiesce'}, {'op': 'snapshot', 'level': 'live'}]
             ops += [{'op': 'advance_to', 'target': target, 'ms': t}]
@@ -64,7 +71,9 @@ class TimeoutFamily:
             ops += [{'op': 'advance', 'ms': ms(on_) + 700}, {'op': 'tick'}, {'op': 'snapshot', 'level': 'live'}]
         ops += [{'op': 'advance', 'ms': 1000}, {'op': 'tick'}, {'op': 'tick'}, {'op': 'snapshot', 'level': 'live'}]
         rt = rng.choice([{'flavor': 'current'}, {'flavor': 'current', 'chaos': {'max_yields': 3, 'seed': rng.randrange(1, 1 << 40)}}, {'flavor': 'multi', 'workers': 2}])
-        sc = {'id': '', 'family': 'timeout', 'sched': rt['flavor'], 'runtime': rt, 'engine': {'store': 'mem', 'keep_processes': True}, 'models': [json.dumps(wf)], 'responder': {'rules': []}, 'ops': ops}
+        if raced_at is not None:
+            rt = {'flavor': 'multi', 'workers': 2, 'chaos': {'max_yields': 2, 'pause_us': rng.choice([0, 30, 100, 300]), 'seed': rng.randrange(1, 1 << 40)}}
+        sc = {'id': '', 'family': 'timeout', 'sched': rt['flavor'] + ('-raced' if raced_at is not None else ''), 'runtime': rt, 'engine': {'store': 'mem', 'keep_processes': True}, 'models': [json.dumps(wf)], 'responder': {'rules': []}, 'ops': ops}
         return {'scenarios': [sc], 'meta': {'wf': wf, 'level': level, 'ons': ons, 'times': times, 'answer_at': answer_at, 'nested': nested}, 'digest': digest([wf, times, answer_at]), 'nontrivial': True}
 
     def judge(self, c, opts, obs):
@@ -95,9 +104,14 @@ class TimeoutFamily:
         for o in ops:
             if o['op'] == 'snapshot':
                 last_snap = o['res']
-            if o['op'] == 'tick':
+            if o['op'] in ('tick', 'tick_race'):
                 lo = prev_seq
                 hi = o['seq']
+                raced = o['op'] == 'tick_race'
+                # a racing client call that was accepted inside this window, and the moment it ended the timed task
+                ended_in = [e['seq'] for e in h.states if e['nid'] == nid and lo < e['seq'] < hi and e['new'] in TERM and e['old'] not in TERM] if raced else []
+                if raced:
+                    obs['c19.ticks-raced-with-the-answer'] += 1
                 tb, ta = o['res']['t_before'], o['res']['t_after']
                 task = None
                 for _, _, snap in h.snapshots():
@@ -111,12 +125,17 @@ class TimeoutFamily:
                     task['state'] = st_[-1] if st_ else 'none'
                 root_ = [e['new'] for e in h.states if e['tid'] == '$' and e['seq'] < lo]
                 proc_running = bool(root_) and root_[-1] == 'running'
+                if raced and any(e['tid'] == '$' and lo < e['seq'] < hi and e['new'] in TERM for e in h.states):
+                    proc_running = False          # the racing call ended the process inside this window: nothing has to fire
                 if task is not None:
                     s = task['start_time']
                     for on in ons:
                         L = ms(on)
                         now_fired = [x for x in fired.get(on, []) if lo < x < hi]
                         obs['c19.rule-tick-decisions'] += 1
+                        if ended_in and [x for x in now_fired if x > ended_in[0]]:
+                            out.append(V('C19', 'fired-after-task-ended', f"{m['level']}:raced", f"rule {on} started its steps after the racing client call had ended the timed {m['level']}", scenario=sid))
+                            continue
                         if task['state'] in TERM:
                             if now_fired:
                                 out.append(V('C19', 'fired-after-task-ended', f"{m['level']}:{task['state']}", f"rule {on} fired at a tick although the timed {m['level']} had ended ({task['state']})", scenario=sid))
@@ -131,6 +150,8 @@ class TimeoutFamily:
                             if must_not:
                                 others = sorted(ms(x) for x in ons if ms(x) <= ta - s)
                                 out.append(V('C19', 'fired-early', f"{m['level']}:{'another-rule-due' if others else 'nothing-due'}", f"rule {on} fired after {ta - s} ms (limit {L} ms)", scenario=sid))
+                        elif must and ended_in:
+                            obs['c19.raced-answer-came-first'] += 1
                         elif must:
                             cached = True
                             for op_ in sc['ops'][:o['i']]:
@@ -143,14 +164,14 @@ class TimeoutFamily:
                             obs['c19.not-due'] += 1
                     # a firing does not close the timed task
                     closed = [e for e in h.states if e['nid'] == nid and lo < e['seq'] < hi and e['new'] in TERM and e['old'] not in TERM]
-                    if closed and task['state'] in OPEN:
+                    if closed and task['state'] in OPEN and not raced:
                         out.append(V('C19', 'tick-closed-timed-task', f"{m['level']}:{closed[0]['new']}", f"the timed {m['level']} went {closed[0]['old']} -> {closed[0]['new']} during a tick", scenario=sid))
             prev_seq = o['seq']
         # firings outside ticks (the steps of a rule may only start at a tick)
         tick_windows = []
         ps = 0
         for o in ops:
-            if o['op'] == 'tick':
+            if o['op'] in ('tick', 'tick_race'):
                 tick_windows.append((ps, o['seq']))
             ps = o['seq']
         for on, l in fired.items():
